@@ -287,6 +287,8 @@ def run_calls(ctx, calls, par=4):
             out[i + j * par] = r
     return out
 
+SEEN = set()
+
 def finite(xs):
     return all(isinstance(x, (int, float)) and x == x and abs(x) != float('inf') for x in xs)
 
@@ -305,8 +307,11 @@ def classify(ctx, c, r):
         key = None
         if c['fn'] == 'from_phi' and c['d'] == 5 and 'UnboundLocalError' in r['error']:
             key = 'from_phi-5D-non-analytic-fs-unbound'
-        ctx.violation('%s raised %s (%s): not a spectrum and not a documented refusal' % (c['fn'], r['error'], json.dumps(describe(c))[:200]),
-                      data={'call': c, 'impl': r}, key=key)
+        if key is None or key not in SEEN:
+            ctx.violation('%s raised %s (%s): not a spectrum and not a documented refusal' % (c['fn'], r['error'], json.dumps(describe(c))[:200]),
+                          data={'call': c, 'impl': r}, key=key)
+        if key is not None:
+            SEEN.add(key); ctx.count('crash:' + key)
         return False
     if 'refused' in r:
         ctx.count('impl_refused')
